@@ -417,6 +417,40 @@ Definition dec_paste (data : list N) : option tev :=
   if utf8_valid text then Some (EPaste text) else None.
 
 (* dispatch on the payload-decoder id (translate/dfa.py MATCHER_IDS); 0 = BasicEventsMatcher::decode *)
+(* ---- 14 ModifiedKeyMatcher: CSI 1 ; m {A B C D F H P Q S} and CSI code ; m ~ ---- *)
+(* TILDE_KEYS of decoder.rs *)
+Definition tilde_key (code : N) : option kname :=
+  if code =? 1 then Some KHome else if code =? 2 then Some KInsert else if code =? 3 then Some KDelete
+  else if code =? 4 then Some KEnd else if code =? 5 then Some KPageUp else if code =? 6 then Some KPageDown
+  else if code =? 7 then Some KInsert else if code =? 8 then Some KEnd
+  else if (11 <=? code) && (code <=? 15) then Some (KF (code - 10))
+  else if (17 <=? code) && (code <=? 21) then Some (KF (code - 11))
+  else if (23 <=? code) && (code <=? 24) then Some (KF (code - 12))
+  else None.
+
+Definition final_key (f : N) : option kname :=
+  if f =? 65 then Some KUp else if f =? 66 then Some KDown else if f =? 67 then Some KRight
+  else if f =? 68 then Some KLeft else if f =? 70 then Some KEnd else if f =? 72 then Some KHome
+  else if f =? 80 then Some (KF 1) else if f =? 81 then Some (KF 2) else if f =? 83 then Some (KF 4)
+  else None.
+
+Definition dec_modkey (data : list N) : option tev :=
+  match numbers_decode (sl 2 1 data) 59 with
+  | code :: p :: _ =>
+      match checked_dec p with
+      | None => None
+      | Some mode =>
+          if 255 <? mode then None
+          else
+            let f := last data 0 in
+            match (if f =? 126 then tilde_key code else if code =? 1 then final_key f else None) with
+            | Some k => Some (EKey k mode)
+            | None => None
+            end
+      end
+  | _ => None
+  end.
+
 Definition ev_payload (modes statuses : list N) (id : N) (data : list N) : option tev :=
   if id =? 1 then dec_cursor data
   else if id =? 2 then dec_decmode modes statuses data
@@ -431,6 +465,7 @@ Definition ev_payload (modes statuses : list N) (id : N) (data : list N) : optio
   else if id =? 11 then dec_termsize data
   else if id =? 12 then dec_utf8 data
   else if id =? 13 then dec_paste data
+  else if id =? 14 then dec_modkey data
   else None.
 
 (* ---- TTYEventDecoder over an explicit automaton ---- *)
